@@ -300,7 +300,11 @@ pub fn gen_v(rng: &mut Rng, ty: Ty, depth: u32, cols: &Cols) -> V {
     let of_ty: Vec<usize> = cols.iter().filter(|c| c.1 == ty).map(|c| c.0).collect();
     if ty == Ty::Int && depth > 0 && rng.chance(1, 3) {
         let a = Box::new(gen_v(rng, ty, depth - 1, cols));
-        let b = Box::new(gen_v(rng, ty, depth - 1, cols));
+        let mut b = Box::new(gen_v(rng, ty, depth - 1, cols));
+        // `NULL op NULL` between two untyped NULL literals has no type for the SQL planner: outside the language
+        if matches!(*a, V::Lit(None, _)) && matches!(*b, V::Lit(None, _)) {
+            b = Box::new(V::Lit(gen_lit(rng, ty, false), ty));
+        }
         return match rng.below(3) {
             0 => V::Add(a, b),
             1 => V::Sub(a, b),
@@ -363,6 +367,10 @@ fn col_or_expr(rng: &mut Rng, ty: Ty, cols: &Cols) -> V {
     if !of_ty.is_empty() && rng.chance(4, 5) {
         V::Col(*rng.pick(&of_ty), ty)
     } else {
-        gen_v(rng, ty, 1, cols)
+        // the left operand of a predicate is never a bare (untyped) NULL literal
+        match gen_v(rng, ty, 1, cols) {
+            V::Lit(None, _) => V::Lit(gen_lit(rng, ty, false), ty),
+            v => v,
+        }
     }
 }
